@@ -499,12 +499,12 @@ fn fault_plans(case: &CliCase, base: &CliRun) -> Vec<String> {
     out
 }
 
-fn exec_one(ctx: &Ctx, tag: u64, case: &CliCase) -> Result<(Option<(String, String)>, CliRun, Outcome), String> {
+fn exec_one(ctx: &Ctx, tag: u64, case: &CliCase) -> Result<(Option<(String, String)>, CliRun, Outcome, String), String> {
     let sc = make_tree(ctx, tag, case).map_err(|e| format!("scratch tree: {}", e))?;
     let (refo, reflog) = reference(&sc.0, case);
     let run = run_cli(ctx, &sc.0, case)?;
     let v = judge(case, &run, &refo, &reflog);
-    Ok((v, run, refo))
+    Ok((v, run, refo, sc.0.to_string_lossy().into_owned()))
 }
 
 impl Engine for Cli {
@@ -544,7 +544,16 @@ impl Engine for Cli {
                 return None;
             }
             match exec_one(ctx, mix(unit, i), case) {
-                Ok((v, run, refo)) => {
+                Ok((v, run, refo, root)) => {
+                    let m = |b: &[u8]| String::from_utf8_lossy(b).replace(&root, "$ROOT");
+                    res.fold(format!("{:?}|{:?}|{}", run.exit, run.signal, run.timed_out).as_bytes());
+                    res.fold(m(&run.stdout).as_bytes());
+                    res.fold(m(&run.stderr).as_bytes());
+                    res.fold(run.outfile.as_deref().unwrap_or(b"<none>"));
+                    for c in &run.calls {
+                        res.fold(format!("{}|{}|{}|{}|{}|{}|{}", c.call, c.class.replace(&root, "$ROOT"), c.nth, c.req, c.res, c.errno, c.action).as_bytes());
+                    }
+                    res.fold(refo.observable().replace(&root, "$ROOT").as_bytes());
                     res.bump("evaluations", 1);
                     let fired: Vec<&ShimCall> = run.calls.iter().filter(|c| c.action != "-").collect();
                     if case.plan.is_empty() {
@@ -609,8 +618,8 @@ impl Engine for Cli {
             None => return vec![Violation { property: "C20".into(), class: "bad-case".into(), detail: "unparsable case".into(), case: case.clone() }],
         };
         match exec_one(ctx, hash_bytes(1, case.to_string().as_bytes()), &c) {
-            Ok((Some((class, detail)), _, _)) => vec![Violation { property: "C20".into(), class, detail, case: case.clone() }],
-            Ok((None, _, _)) => vec![],
+            Ok((Some((class, detail)), _, _, _)) => vec![Violation { property: "C20".into(), class, detail, case: case.clone() }],
+            Ok((None, _, _, _)) => vec![],
             Err(e) => vec![Violation { property: "C20".into(), class: "harness".into(), detail: e, case: case.clone() }],
         }
     }
